@@ -108,7 +108,9 @@ def E(name, variant=0):
     raise KeyError(name)
 
 
-ALL_IDS = ['urn:vp:idpA', 'urn:vp:spX', 'urn:vp:aa', 'urn:vp:expired', 'urn:vp:fresh', 'urn:vp:saml1', 'urn:vp:dual', 'urn:vp:nobody']
+ALL_IDS = ['urn:vp:idpA', 'urn:vp:spX', 'urn:vp:aa', 'urn:vp:expired', 'urn:vp:fresh', 'urn:vp:saml1', 'urn:vp:dual', 'urn:vp:nobody',
+           # near misses of identifiers that exist (prefix, longer, other case, surrounding blank): all unknown
+           'urn:vp:idp', 'urn:vp:idpAx', 'URN:VP:IDPA', 'urn:vp:idpA ', ' urn:vp:spX']
 
 
 def federations(thorough):
